@@ -1,5 +1,6 @@
 import Rbp.Model.Par
 import Rbp.Model.Run
+import Rbp.Model.Folder
 /-!
 # C13 — output depends only on data directory and options, never on scheduling or reruns
 (logical core; that rayon's indexed `collect` implements this machine, and that LevelDB's log rewrite keeps the kv
@@ -38,6 +39,21 @@ theorem model_is_function (o : Run.Opts) (key : Option W.Bytes) (kvs : List (W.B
     (h1 : o = o') (h2 : key = key') (h3 : kvs = kvs') (h4 : files = files') :
     Run.run o key kvs files = Run.run o' key' kvs' files' := by
   subst h1 h2 h3 h4; rfl
+
+/-- **files already present in the dump folder do not change the result.**  The dump folder as a map from names to contents;
+    `File::create` truncates, `rename` replaces.  For the program of a run — create every tmp file, append the rows, rename
+    every tmp file to its final name — the contents found afterwards under this run's tmp and final names are the same for
+    ANY two initial folders (stale `*.tmp` files of any length and earlier results under the same names included), and every
+    other name in the folder is left exactly as it was -/
+theorem preexisting_irrelevant (ts fs : List String) (rows : List (String × Fd.Bytes)) (f g : Fd.Folder)
+    (hrows : ∀ r ∈ rows, r.1 ∈ ts) (hlen : ts.length = fs.length) :
+    (∀ n, n ∈ ts ∨ n ∈ fs → Fd.exec f (Fd.runProg ts rows fs) n = Fd.exec g (Fd.runProg ts rows fs) n) ∧
+    (∀ n, n ∉ ts → n ∉ fs → Fd.exec f (Fd.runProg ts rows fs) n = f n) :=
+  Fd.run_independent_of_folder ts fs rows f g hrows hlen
+
+/-- non-vacuity: a long stale tmp file and an older result are both replaced -/
+example : Fd.exec (fun n => if n = "blocks.csv.tmp" then some (List.replicate 50 7) else if n = "blocks-0-1.csv" then some [1] else none)
+    (Fd.runProg ["blocks.csv.tmp"] [("blocks.csv.tmp", [9, 9])] ["blocks-0-1.csv"]) "blocks-0-1.csv" = some [9, 9] := by decide
 
 /-- non-vacuity: three tasks completed in the order 2,0,1 -/
 example : runSched (· + 1) [10, 20, 30] [2, 0, 1] = [some 11, some 21, some 31] := by decide
